@@ -10,6 +10,7 @@ import (
 
 	"github.com/openziti/storage/ast"
 	"github.com/openziti/storage/boltz"
+	"github.com/openziti/storage/zitiql"
 	"go.etcd.io/bbolt"
 	"verif/harness/internal/core"
 )
@@ -21,7 +22,7 @@ func init() {
 		Level: "exploration",
 		Rule: "race-detector build. 8 reader goroutines each run read transactions that parse and run queries (scalar, set, map, dotted), IterateIds, unique / set index reads and link reads, against 2 writers committing multi-operation transactions that rewrite the whole database into a self-certifying stamped state(g); " +
 			"every read transaction must observe exactly one generation in full (entities, index entries, links, query results). In parallel goroutines hammer ast.Parse on identical and distinct strings incl. invalid ones (parser / lexer pools, error listeners), Store.GetSymbol for plain, set, dotted and map names on one shared store, " +
-			"and IsErrNotFoundErr / IsReferenceExistsError / IsUniqueIndexDuplicateError on matching and non-matching errors (results checked). Any race-detector report whose racing access is in openziti/storage or antlr is a violation. " +
+			"and IsErrNotFoundErr / IsReferenceExistsError / IsUniqueIndexDuplicateError on matching and non-matching errors (results checked). zitiql.ParseWithDebug with the debug switch on and off on valid and invalid sentences (a non-debug parse of a valid sentence has no errors, an invalid one has errors); the readers start with a rendezvous inside open read transactions before their first >5-field sort and first use of new symbol names, and ask two IteratorMatchingAnyOf providers shared by all goroutines and transactions (membership swaps with every generation). Any race-detector report whose racing access is in openziti/storage or antlr is a violation. " +
 			"non-trivial = distinct generations observed by read transactions that spanned at least one commit",
 		Assumptions: []string{"interleavings are sampled, not enumerated; compiled queries are not shared between goroutines (not claimed)", "a race report whose racing accesses are both in the harness makes the run inconclusive"},
 		MaxWorkers:  4,
@@ -86,10 +87,25 @@ func runC18(c *core.Ctx, idx int) {
 	}
 	// readers
 	var rwg sync.WaitGroup
+	var firstTouch sync.WaitGroup
+	firstTouch.Add(8)
 	for rd := 0; rd < 8; rd++ {
 		rwg.Add(1)
 		go func(rd int) {
 			defer rwg.Done()
+			// first touch: whatever a store sets up lazily on its read path (per sort shape, per symbol name) is reached by
+			// all readers at the same moment, each inside its own open read transaction
+			_ = s.db.View(func(tx *bbolt.Tx) error {
+				firstTouch.Done()
+				firstTouch.Wait()
+				for _, q := range []string{"sort by gen, name desc, hub, gen desc, name, id, hub desc", `attrs.first.touch = "x" sort by name, gen, hub, id, name desc, gen desc`, `anyOf(hubs.gen) = 1 or meta.firsttouch = 2`, "skip 1 limit 2"} {
+					if _, _, err := s.sc.St("cells").Store.QueryIds(tx, q); err != nil {
+						c.Violationf("C18 first concurrent use of a query shape failed", q, "%v", err)
+					}
+				}
+				c.Count("first_touch_rendezvous", 1)
+				return nil
+			})
 			n := 0
 			for !stop.Load() {
 				before := s.commits.Load()
@@ -252,6 +268,33 @@ func runC18(c *core.Ctx, idx int) {
 				if a != wa || b != wb || d != wd {
 					c.Violationf("C18 error classification helper gave the wrong answer under concurrency", fmt.Sprint(e), "error %v: notfound=%v refexists=%v dup=%v", e, a, b, d)
 				}
+			}
+		}(p)
+	}
+	// the parser entry point itself, with and without its debug switch (a debug parse adds a diagnostic listener to the
+	// pooled parser it borrowed): a valid sentence has no errors, an invalid one has its own errors and nobody else's
+	for p := 0; p < 4; p++ {
+		rwg.Add(1)
+		go func(p int) {
+			defer rwg.Done()
+			valid := []string{`a = 1`, `a = 1 and b != "x"`, `anyOf(s) = "v" sort by a limit 3`, `not (a < 2)`}
+			invalid := []string{`a = = 1`, `a = 1 and`, `a ~ 3`, `limit limit`}
+			for i := 0; !stop.Load(); i++ {
+				debug := (i+p)%2 == 0
+				text, wantErr := valid[(i/2)%len(valid)], false
+				if (i/3+p)%2 == 0 {
+					text, wantErr = invalid[(i/2+p)%len(invalid)], true
+				}
+				errs := zitiql.ParseWithDebug(text, &zitiql.BaseZitiQlListener{}, debug)
+				c.Count("helper_calls", 1)
+				c.Count("raw_parses", 1)
+				c.Cover("raw_parse", fmt.Sprintf("debug=%v invalid=%v", debug, wantErr))
+				// in debug mode ANTLR's diagnostic listener hands its ambiguity reports to the error listeners as well, so
+				// a valid sentence may come back with entries; only "an invalid sentence has errors" is judged there
+				if (len(errs) != 0) != wantErr && (!debug || wantErr) {
+					c.Violationf("C18 zitiql.ParseWithDebug gave another sentence's verdict under concurrency", map[string]any{"text": text, "debug": debug}, "%q debug=%v: %d errors %v", text, debug, len(errs), errs)
+				}
+				time.Sleep(50 * time.Microsecond)
 			}
 		}(p)
 	}
